@@ -174,7 +174,14 @@ def extendRange (s : DStore) (newMin newMax : Int) : Option DStore := do
   if s.count = 0 then
     let initialLength ← s.getNewLength newMin newMax
     let t ← s.grow initialLength
-    adjust { t with offset := newMin, minIndex := newMin, maxIndex := newMax } newMin newMax
+    -- collapsing kinds: a range wider than the (empty) store is clamped right away
+    let wide := newMax - newMin + 1 > initialLength
+    let (newMin, newMax, coll) :=
+      match s.kind with
+      | .plain => (newMin, newMax, t.isCollapsed)
+      | .low _ => if wide then (newMax - initialLength + 1, newMax, true) else (newMin, newMax, t.isCollapsed)
+      | .high _ => if wide then (newMin, newMin + initialLength - 1, true) else (newMin, newMax, t.isCollapsed)
+    adjust { t with offset := newMin, minIndex := newMin, maxIndex := newMax, isCollapsed := coll } newMin newMax
   else if newMin ≥ s.offset ∧ newMax < s.offset + s.len then
     pure { s with minIndex := newMin, maxIndex := newMax }
   else
